@@ -192,8 +192,8 @@ class C20(Check):
             yield {'kind': 'smdhbits', 'f': w & 0xFFFFFFFF, 'r': w}
 
     def gen(self, rng, tier, i):
-        kind = rng.pick(['smdh', 'smdh', 'title-raw', 'seeddb', 'seeddb-raw', 'cfg', 'cfg', 'cfg-raw', 'desc', 'ncsd', 'lzss', 'lzss',
-                         'lzss-bad', 'smdhbits'])
+        kind = rng.pick(['smdh', 'smdh', 'title-raw', 'seeddb', 'seeddb-raw', 'cfg', 'cfg', 'cfg-raw', 'cfg-typed', 'cfg-typed', 'desc', 'ncsd',
+                         'lzss', 'lzss', 'lzss-bad', 'smdhbits'])
         return {'kind': kind, 'seed': rng.getrandbits(32)}
 
     # ------------------------------------------------------------------------------------------------------------
@@ -384,7 +384,6 @@ class C20(Check):
         mon = []
         for bid, fl, data in blocks:
             c.set_block(bid, data, fl if rng.chance(0.5) else None)
-        # default flags for a new block without explicit flags are 0xE, not the table value: record what was stored
         stored = [(bid, c.blocks[bid].flags, c.blocks[bid].data) for bid in c.blocks]
         try:
             raw = c.to_bytes()
@@ -404,9 +403,90 @@ class C20(Check):
                 elif back.to_bytes() != raw:
                     mon.append('to_bytes(load(image)) != image for a canonical image')
             except Exception as e:      # noqa
-                if all(f == kb[b]['flags'] for b, f, _ in stored):
-                    mon.append(f'load rejected its own to_bytes output: {exc_name(e)}')
+                mon.append(f'load rejected its own to_bytes output: {exc_name(e)}')
         return real, model, mon
+
+    def run_cfg_typed(self, case, rng, drv):
+        """the typed accessors of ConfigSaveBlockParser (username, RTC offset, system model) and set_block with default flags,
+        as an operation sequence on one save; every setter is followed by its getter and the save is serialised and re-loaded"""
+        from pyctr.type.config.blocks import ConfigSaveBlockParser
+        from pyctr.type.config.save import ConfigSaveReader
+        kb = known_blocks()
+        pool = ['a', 'Z', '0', ' ', '\u00e9', '\u3000', '\u2500', '\u0100', '\u3042', '\uff21', '\U00010000', '\U0001f600', 'e\u0301', '\u00ff', '\u0001']
+        save = ConfigSaveReader()
+        p = ConfigSaveBlockParser(save)
+        ops, outs, mon = [], [], []
+
+        def do(fn):
+            try:
+                r = fn()
+                return 'ok' if r is None else 'ok:' + r
+            except Exception as e:      # noqa
+                return 'e:' + exc_name(e)
+        for _ in range(rng.randint(1, 8)):
+            k = rng.pick(['user', 'user', 'time', 'model', 'set', 'get', 'roundtrip'])
+            if k == 'user':
+                units = rng.pick([0, 1, 3, 9, 10, 13, 14, 15])
+                v = ''
+                while len(v.encode('utf-16le')) // 2 < units:
+                    v += rng.pick(pool)
+                if rng.chance(0.15):
+                    v = v[:2] + '\0' + v[2:]
+                ops.append(['user-set', v.encode('utf-16le')])
+                outs.append(do(lambda: setattr(p, 'username', v)))
+                ops.append(['user-get'])
+                outs.append(do(lambda: (p.username.encode('utf-16le').hex() or '-')))
+                if outs[-2] == 'ok' and '\0' not in v and outs[-1] != 'ok:' + (v.encode('utf-16le').hex() or '-'):
+                    mon.append(f'username set to {v!r} reads back as {outs[-1]}')
+            elif k == 'time':
+                v = rng.pick([0, 1, 0xFFFFFFFF, 1 << 63, (1 << 64) - 1, 1 << 64, -1, rng.getrandbits(64)])
+                ops.append(['time-set', v])
+                outs.append(do(lambda: setattr(p, 'user_time_offset', v)))
+                ops.append(['time-get'])
+                outs.append(do(lambda: str(p.user_time_offset)))
+                if outs[-2] == 'ok' and outs[-1] != f'ok:{v}':
+                    mon.append(f'user_time_offset set to {v} reads back as {outs[-1]}')
+            elif k == 'model':
+                v = rng.pick([0, 1, 2, 3, 4, 5, 5, 6, 255, 256, -1])
+                ops.append(['model-set', v])
+                outs.append(do(lambda: setattr(p, 'system_model', v)))
+                ops.append(['model-get'])
+                outs.append(do(lambda: str(int(p.system_model))))
+                if outs[-2] == 'ok' and 0 <= v <= 5 and outs[-1] != f'ok:{v}':
+                    mon.append(f'system_model set to {v} reads back as {outs[-1]}')
+            elif k == 'set':
+                bid = rng.pick(sorted(kb) + [0x000A0000, 0x00030001, 0x000F0004, 0x12345678])
+                size = kb[bid]['size'] if bid in kb else 4
+                if rng.chance(0.1):
+                    size += 1
+                data = rng.rbytes(size)
+                fl = rng.pick([None, None, kb[bid]['flags'] if bid in kb else 0xC, 0xE, 0xC, 0x8, 0x3])
+                ops.append(['set', bid, data, 'none' if fl is None else fl])
+                outs.append(do(lambda: save.set_block(bid, data, fl)))
+            elif k == 'get':
+                g = rng.pick(['user-get', 'time-get', 'model-get'])
+                ops.append([g])
+                outs.append(do({'user-get': lambda: (p.username.encode('utf-16le').hex() or '-'), 'time-get': lambda: str(p.user_time_offset),
+                                'model-get': lambda: str(int(p.system_model))}[g]))
+            else:
+                ops.append(['roundtrip'])
+                stored = [(bid, b.flags, bytes(b.data)) for bid, b in save.blocks.items()]
+                try:
+                    raw = save.to_bytes()
+                except Exception as e:      # noqa
+                    outs.append('e:' + exc_name(e))
+                    continue
+                try:
+                    back = ConfigSaveReader.load(io.BytesIO(raw))
+                    got = [(bid, b.flags, bytes(b.data)) for bid, b in back.blocks.items()]
+                    outs.append('same' if got == stored else 'differs:' + ','.join(f'{b}:{f}:{d.hex() or "-"}' for b, f, d in got))
+                    if got != stored:
+                        mon.append('load(to_bytes(save)) != save')
+                except Exception as e:      # noqa
+                    outs.append('load-e:' + exc_name(e))
+                    mon.append(f'a save built through set_block / the typed setters serialises to an image its own loader rejects: {exc_name(e)}')
+        real = 'ok ' + ';'.join(outs) + ' ' + ','.join(f'{bid}:{b.flags}:{bytes(b.data).hex() or "-"}' for bid, b in save.blocks.items())
+        return real, drv.ask(sexp(['cfg-ops', ops])), mon
 
     def run_cfg_raw(self, case, rng, drv):
         from pyctr.type.config.save import ConfigSaveReader
